@@ -22,7 +22,7 @@ RULE = ("programs = pre [n body] post with n in 1..6 or omitted (=2), bodies of 
         "non-trivial = distinct source with a loop of count >= 2 or a ':'")
 TRUSTED = ["the lexer is compositional at command boundaries (a body followed by a space lexes the same before ']' and "
            "before its own next copy) - this is C03's printer lemma, here exercised but not proved"]
-ASSUMES = ["counts are literals 1..6 or omitted; an omitted count is never followed (after blanks and /* */ comments) by '(', "
+ASSUMES = ["counts are literals 1..6 or omitted (plus a fixed list of large counts 100..5000 on short bodies); an omitted count is never followed (after blanks and /* */ comments) by '(', "
            "'=' or a digit (read_loop would take it as the count)",
            "commands are closed in the sense of DESIGN 6.0: an unparenthesised expression argument (@40, TEMPO=90) is ended by "
            "';' - otherwise it absorbs a following ':' as an argument separator and there is no loop break in the token list",
@@ -208,6 +208,16 @@ def run(ctx):
         pairs.append(("[%d %s ] c" % (k, a), " ".join([a] * k) + "  c", "[n body]", True))
         pairs.append(("[%d %s : %s ] c" % (k, a, b), " ".join([a + " " + b] * (k - 1) + [a]) + "  c", "[n a : b]", True))
     compare(ctx, pairs, "literal")
+    # large counts (short bodies): 127 / 128 / 255 / 256 / 1000 are where a byte-sized or clamped counter would show
+    pairs = []
+    for k in ([127, 128, 129, 200, 255, 256, 257, 1000] if ctx.tier == "quick" else [100, 127, 128, 129, 200, 255, 256, 257, 300, 1000, 1024, 4096, 5000]):
+        a = leaf(rng, 1, rng.randrange(1, 3))
+        b = leaf(rng, 1, 1)
+        pre = rng.choice(["l16 ", "l32 ", "TR=2 l32 ", "l64 "])
+        pairs.append((pre + "[%d %s ] c" % (k, a), pre + " ".join([a] * k) + "  c", "[n body], large n", True))
+        pairs.append((pre + "[%d %s : %s ] c" % (k, a, b), pre + " ".join([a + " " + b] * (k - 1) + [a]) + "  c", "[n a : b], large n", True))
+        pairs.append((pre + "[2 [%d %s : %s ] e ] c" % (k, a, b), pre + " ".join([" ".join([a + " " + b] * (k - 1) + [a]) + " e"] * 2) + "  c", "nested, large n", True))
+    compare(ctx, pairs, "large-count")
 
 
 def replay(ctx, obj):
